@@ -337,3 +337,82 @@ Fixpoint plain (t : ftype) : dtype :=
   | FNamed parts args => DNamed 0 parts (map plain args)
   | _ => DLeaf 0 t
   end.
+
+(** ---------------------------------------------------------------- well-formedness, stop tokens *)
+
+(** What may follow a complete type expression at a level (0 = TYPE, 1 = ELEM_TYPE, 2/3 = TERM/ATOM)
+    without being taken for its continuation: not '.', not '<' (a following name part / argument list),
+    not '*' below the tuple level, not '->' at the type level. *)
+Definition okhead (lv : nat) (t : tok) : bool :=
+  match t with
+  | TDot | TLt => false
+  | TAster => 2 <=? lv
+  | TArrow => 1 <=? lv
+  | _ => true
+  end.
+
+Definition stops (lv : nat) (rest : list tok) : Prop :=
+  match rest with
+  | [] => True
+  | t :: _ => okhead lv t = true
+  end.
+
+Definition is_leaf (t : ftype) : bool :=
+  match t with FInt | FString | FBool | FFloat | FAny | FUnit => true | _ => false end.
+
+Definition wf_nameb (parts : list string) : bool :=
+  match parts with
+  | [] => false
+  | s :: _ => match base_of s with None => true | Some _ => false end
+  end.
+
+Section WellFormed.
+  Variable env : string -> option (string * nat).
+
+  Definition arity_ok (parts : list string) (n : nat) : bool :=
+    match env (join_dot parts) with
+    | Some (_, a) => Nat.eqb a n
+    | None => false
+    end.
+
+  (** What the type parser can produce: tuples and function types have at least two components (a
+      function type's last component is its result), a name's first part is not a base-type name, the
+      dotted name is registered with as many parameters as arguments are written. *)
+  Fixpoint wf (t : ftype) : bool :=
+    match t with
+    | FSlice e => wf e
+    | FTuple l => (2 <=? List.length l) && forallb wf l
+    | FFunc l => (2 <=? List.length l) && forallb wf l
+    | FNamed parts args => wf_nameb parts && arity_ok parts (List.length args) && forallb wf args
+    | _ => true
+    end.
+
+  Fixpoint dwf (d : dtype) : bool :=
+    match d with
+    | DLeaf _ t => is_leaf t
+    | DSlice _ e => dwf e
+    | DTuple _ l => (2 <=? List.length l) && forallb dwf l
+    | DFunc _ l => (2 <=? List.length l) && forallb dwf l
+    | DNamed _ parts args => wf_nameb parts && arity_ok parts (List.length args) && forallb dwf args
+    end.
+End WellFormed.
+
+(** the syntactic level of a type's outermost constructor *)
+Definition nl (t : ftype) : nat :=
+  match t with FFunc _ => 0 | FTuple _ => 1 | FSlice _ => 2 | _ => 3 end.
+
+(** What can be written without any parenthesis: a function type's components are never function
+    types, a tuple's components and a slice's element are never function types or tuples (and unit,
+    which is spelled with parentheses, does not occur). *)
+Fixpoint paren_free (t : ftype) : bool :=
+  match t with
+  | FUnit => false
+  | FSlice e => (2 <=? nl e) && paren_free e
+  | FTuple l => forallb (fun x => (2 <=? nl x) && paren_free x) l
+  | FFunc l => forallb (fun x => (1 <=? nl x) && paren_free x) l
+  | FNamed _ args => forallb paren_free args
+  | _ => true
+  end.
+
+Definition no_lp (ts : list tok) : Prop := Forall (fun t => t <> TLP) ts.
+
